@@ -31,8 +31,9 @@ CFG = {
         "order (IDFields of two ids), cn (CnStyle then FromChStyle), from (FromChStyle of a mutated / malformed date string), range / "
         "between (TimeIDRange / TimeBetweenID plus IDParse of probe ids around both ends), zone (offset Go reports for an instant). "
         "A case is non-trivial when it lies inside the property's quantifier, so that case_holds is not vacuous: node bits 8/9/10, "
-        "epoch >= 2000-01-01 (+08), id >= 0; for cn additionally local year <= 9999; for range/between begin <= end and both offsets "
-        "from the epoch inside the timestamp width. distinct = distinct Coq terms."),
+        "epoch >= 2000-01-01 (+08), id >= 0; for cn additionally local year <= 9999; for range/between begin <= end and both second-truncated "
+        "offsets from the epoch are values of the timestamp field (0 <= off < 2^(63-shift)); the monitor reads the range clause literally: "
+        "ids stamped bs..es inside, ids stamped before bs or from es+1000 on outside, ids stamped es+1..es+999 left open. distinct = distinct Coq terms."),
     "trusted": [
         "snowflake.VerifSetConfig hook (sets _epoch/_nodeBits/_nodeAtLowest; the three values Setup writes)",
         "zone data of Asia/Shanghai: constant offset +8 h after 1991-09-15 (assumption of the model, sampled on every run)",
